@@ -25,13 +25,13 @@ import (
 
 // specInitVerdict marks a value as the verdict of checkInitialized (uninterpreted).
 //
-//@ uninterpreted
+// @ uninterpreted
 func specInitVerdict(err error) bool { return true }
 
 // checkInitialized walks the message through protoreflect: trusted, its result is by definition
 // the initialization verdict.
 //
-//@ trusted
+// @ trusted
 func contract_checkInitialized(m protoreflect.Message) (err error) {
 	modifiesAll()
 	ensuresTrusted(specInitVerdict(err))
@@ -40,7 +40,7 @@ func contract_checkInitialized(m protoreflect.Message) (err error) {
 
 // The reflection decoder: body not verified (protoreflect), preconditions checked at its callers.
 //
-//@ trusted
+// @ trusted
 func contract_UnmarshalOptions_unmarshalMessageSlow(o UnmarshalOptions, b []byte, m protoreflect.Message) (err error) {
 	requires(o.Merge)
 	requires(o.AllowPartial)
@@ -58,14 +58,14 @@ func fieldcontract_Methods_Unmarshal(in protoiface.UnmarshalInput) (out protoifa
 // message, the remaining recursion budget (C06), the discard-unknown choice (C09), the
 // required-check request (C10) and the lazy-decoding choice.
 //
-//@ props C06 C07 C09 C10
-//@ mode int
-//@ nopanic
-//@ guard-errors
-//@ callsite methods.Unmarshal: iff(in.Flags&protoiface.UnmarshalDiscardUnknown != 0, o.DiscardUnknown)
-//@ callsite methods.Unmarshal: iff(in.Flags&protoiface.UnmarshalCheckRequired != 0, !allowPartial)
-//@ callsite methods.Unmarshal: iff(in.Flags&protoiface.UnmarshalNoLazyDecoding != 0, o.NoLazyDecoding)
-//@ callsite methods.Unmarshal: in.Depth == o.RecursionLimit && identical(in.Message, m) && sameArray(in.Buf, b) && len(in.Buf) == len(b)
+// @ props C06 C07 C09 C10
+// @ mode int
+// @ nopanic
+// @ guard-errors
+// @ callsite methods.Unmarshal: iff(in.Flags&protoiface.UnmarshalDiscardUnknown != 0, o.DiscardUnknown)
+// @ callsite methods.Unmarshal: iff(in.Flags&protoiface.UnmarshalCheckRequired != 0, !allowPartial)
+// @ callsite methods.Unmarshal: iff(in.Flags&protoiface.UnmarshalNoLazyDecoding != 0, o.NoLazyDecoding)
+// @ callsite methods.Unmarshal: in.Depth == o.RecursionLimit && identical(in.Message, m) && sameArray(in.Buf, b) && len(in.Buf) == len(b)
 func contract_UnmarshalOptions_unmarshal(o UnmarshalOptions, b []byte, m protoreflect.Message) (out protoiface.UnmarshalOutput, err error) {
 	modifiesAll()
 	// without AllowPartial, success means: reported initialized by the fast path, or vouched for by checkInitialized
@@ -83,7 +83,7 @@ func contract_UnmarshalOptions_unmarshal(o UnmarshalOptions, b []byte, m protore
 
 // specSized marks a message whose cached sizes were recomputed by a methods.Size call (uninterpreted).
 //
-//@ uninterpreted
+// @ uninterpreted
 func specSized(m protoreflect.Message) bool { return true }
 
 // Table invariant of protoiface.Methods.Size: by definition it recomputes (and caches) the sizes.
@@ -101,18 +101,18 @@ func fieldcontract_Methods_Marshal(in protoiface.MarshalInput) (out protoiface.M
 
 // flags copies the two user options into the internal flag word and sets nothing else.
 //
-//@ props C16
-//@ mode int
+// @ props C16
+// @ mode int
 func contract_MarshalOptions_flags(o MarshalOptions) (f protoiface.MarshalInputFlags) {
 	ensures(iff(f&protoiface.MarshalUseCachedSize != 0, o.UseCachedSize))
 	ensures(iff(f&protoiface.MarshalDeterministic != 0, o.Deterministic))
 	return
 }
 
-//@ props C10 C16
-//@ mode int
-//@ nopanic
-//@ guard-errors
+// @ props C10 C16
+// @ mode int
+// @ nopanic
+// @ guard-errors
 func contract_MarshalOptions_marshal(o MarshalOptions, b []byte, m protoreflect.Message) (out protoiface.MarshalOutput, err error) {
 	domain(!o.UseCachedSize) // callers setting the deprecated option take over the obligation themselves
 	modifiesAll()
